@@ -3,6 +3,7 @@ package rules
 import (
 	"fmt"
 	"go/token"
+	"go/types"
 	"os"
 	"sort"
 	"strings"
@@ -652,10 +653,7 @@ func c17Output(c *Ctx, run *ssa.Function) {
 			r.Bad("O-2", key, c.P.Pos(call.Pos()), "results are re-sorted with "+n+", which is not stable: equal scores are reordered relative to the engine's rank order")
 			return
 		}
-		desc := false
-		if mc, ok := call.Common().Args[1].(*ssa.MakeClosure); ok {
-			desc = isScoreDescComparator(mc.Fn.(*ssa.Function))
-		}
+		desc := isScoreDescComparator(comparatorFunc(call.Common().Args[1]))
 		r.Check(desc, "O-2", key, c.P.Pos(call.Pos()), "stable sort by Score descending", "the display sort does not order by Score descending")
 	})
 	// print loops over the result list
@@ -810,10 +808,20 @@ func c17Output(c *Ctx, run *ssa.Function) {
 	r.Check(toStdout, "O-3", fk+"#json-to-stdout", c.P.Pos(enc.Pos()), "encoder writes to os.Stdout", "the JSON encoder does not write to os.Stdout")
 }
 
-// isScoreDescComparator: func(i, j) bool { return xs[i].Score > xs[j].Score }
+// isScoreDescComparator recognises an ordering function by descending Score:
+// the sort.Slice form func(i, j int) bool { return xs[i].Score > xs[j].Score }
+// and the slices.SortFunc form func(a, b SearchResult) int, which returns a
+// negative number exactly when a.Score > b.Score, a positive one exactly when
+// b.Score > a.Score, and zero otherwise (or cmp.Compare(b.Score, a.Score)).
 func isScoreDescComparator(fn *ssa.Function) bool {
+	if fn == nil || len(fn.Params) != 2 || len(fn.Blocks) == 0 || fn.Signature.Results().Len() != 1 {
+		return false
+	}
+	if bt, ok := fn.Signature.Results().At(0).Type().Underlying().(*types.Basic); ok && bt.Info()&types.IsInteger != 0 {
+		return isScoreDescThreeWay(fn)
+	}
 	rets := ssau.ReturnsOf(fn)
-	if len(rets) != 1 || len(fn.Params) != 2 {
+	if len(rets) != 1 {
 		return false
 	}
 	op, x, y, ok := ssau.CondOf(rets[0].Results[0])
@@ -833,6 +841,141 @@ func isScoreDescComparator(fn *ssa.Function) bool {
 	xi, yi := idx(x), idx(y)
 	i, j := ssa.Value(fn.Params[0]), ssa.Value(fn.Params[1])
 	return (op == token.GTR && xi == i && yi == j) || (op == token.LSS && xi == j && yi == i)
+}
+
+func isScoreDescThreeWay(fn *ssa.Function) bool {
+	a, b := fn.Params[0], fn.Params[1]
+	// which parameter's Score is v?
+	side := func(v ssa.Value) *ssa.Parameter {
+		n, base := lastSelector(v)
+		if n != "Score" || base == nil {
+			return nil
+		}
+		if p := ssau.ParamOf(base); p != nil {
+			return p
+		}
+		if p, ok := base.(*ssa.Parameter); ok {
+			return p
+		}
+		if u, ok := base.(*ssa.UnOp); ok && u.Op == token.MUL {
+			if p, ok := u.X.(*ssa.Parameter); ok {
+				return p
+			}
+		}
+		if al, ok := base.(*ssa.Alloc); ok {
+			// the parameter spilled into its cell
+			for _, ref := range *al.Referrers() {
+				if st, ok := ref.(*ssa.Store); ok && st.Addr == ssa.Value(al) {
+					if p, ok := st.Val.(*ssa.Parameter); ok {
+						return p
+					}
+				}
+			}
+		}
+		return nil
+	}
+	// cmp.Compare(b.Score, a.Score)
+	if rets := ssau.ReturnsOf(fn); len(rets) == 1 {
+		if call, ok := rets[0].Results[0].(*ssa.Call); ok && strings.HasPrefix(ssau.CallName(call), "cmp.Compare") {
+			ar := call.Common().Args
+			return len(ar) == 2 && side(ar[0]) == b && side(ar[1]) == a
+		}
+	}
+	aGtB, bGtA := map[[2]int]bool{}, map[[2]int]bool{}
+	for _, iff := range ssau.Ifs(fn) {
+		op, x, y, ok := ssau.CondOf(iff.Cond)
+		if !ok {
+			continue
+		}
+		sx, sy := side(x), side(y)
+		if sx == nil || sy == nil || sx == sy {
+			continue
+		}
+		if op == token.LSS {
+			sx, sy, op = sy, sx, token.GTR
+		}
+		if op != token.GTR {
+			continue
+		}
+		if sx == a && sy == b {
+			aGtB[[2]int{iff.Block().Index, 0}] = true
+		}
+		if sx == b && sy == a {
+			bGtA[[2]int{iff.Block().Index, 0}] = true
+		}
+	}
+	if len(aGtB) == 0 || len(bGtA) == 0 {
+		return false
+	}
+	// exits: (block, constant) — a return of a constant, or an edge into a
+	// returned phi carrying one
+	type exit struct {
+		blk *ssa.BasicBlock
+		k   int64
+	}
+	var exits []exit
+	for _, ret := range ssau.ReturnsOf(fn) {
+		switch v := ret.Results[0].(type) {
+		case *ssa.Const:
+			k, ok := ssau.ConstInt(v)
+			if !ok {
+				return false
+			}
+			exits = append(exits, exit{ret.Block(), k})
+		case *ssa.Phi:
+			for i, e := range v.Edges {
+				k, ok := ssau.ConstInt(e)
+				if !ok {
+					return false
+				}
+				exits = append(exits, exit{v.Block().Preds[i], k})
+			}
+		default:
+			return false
+		}
+	}
+	// negative only behind a.Score > b.Score, positive only behind b.Score > a.Score
+	for _, e := range exits {
+		switch {
+		case e.k < 0:
+			if ssau.ReachableAvoidingEdges(fn, e.blk, aGtB) {
+				return false
+			}
+		case e.k > 0:
+			if ssau.ReachableAvoidingEdges(fn, e.blk, bGtA) {
+				return false
+			}
+		}
+	}
+	// and behind each test nothing else: from the true side of a > b only
+	// negative exits are reachable, from the true side of b > a only positive
+	after := func(edges map[[2]int]bool, want func(int64) bool) bool {
+		for ed := range edges {
+			from := fn.Blocks[ed[0]].Succs[ed[1]]
+			for _, e := range exits {
+				if (e.blk == from || ssau.Reachable(from, e.blk, nil)) && !want(e.k) {
+					return false
+				}
+			}
+		}
+		return true
+	}
+	return after(aGtB, func(k int64) bool { return k < 0 }) && after(bGtA, func(k int64) bool { return k > 0 })
+}
+
+// comparatorFunc: the function behind a comparator argument (a closure or a
+// named function).
+func comparatorFunc(v ssa.Value) *ssa.Function {
+	switch x := v.(type) {
+	case *ssa.MakeClosure:
+		f, _ := x.Fn.(*ssa.Function)
+		return f
+	case *ssa.Function:
+		return x
+	case *ssa.ChangeType:
+		return comparatorFunc(x.X)
+	}
+	return nil
 }
 
 // c17NoColorCell: the local variable of the search command that receives
